@@ -93,7 +93,11 @@ func main() {
 			for _, d := range f.Decls {
 				if fd, ok := d.(*ast.FuncDecl); ok {
 					if o, ok := q.Root.TypesInfo.Defs[fd.Name].(*types.Func); ok {
-						lines = append(lines, fmt.Sprintf("\t%q: %q,", funcObjKey(o), sigKey(o)))
+						if os.Getenv("FCHECK_DUMP_PINNED") == "shapes" {
+							lines = append(lines, fmt.Sprintf("\t%q: %q,", funcObjKey(o), bodyShape(fd)))
+						} else {
+							lines = append(lines, fmt.Sprintf("\t%q: %q,", funcObjKey(o), sigKey(o)))
+						}
 					}
 				}
 			}
@@ -415,8 +419,9 @@ func main() {
 					}
 				}
 			}
-			if bestRep != nil && bestRep.failing(vdir) <= rep.failing(vdir) {
-				// every form fails: the findings of the form with the fewest are the ones to read (the others add what a
+			if bestRep != nil && bestRep.failing(vdir) <= rep.failing(vdir) && !(bestRep.failing(vdir) == rep.failing(vdir) && bestRep.definiteViolations(vdir) < rep.definiteViolations(vdir)) {
+				// every form fails (a definite finding on the program as written is not traded for an undecided one on
+				// an expanded form): the findings of the form with the fewest are the ones to read (the others add what a
 				// rule cannot see through the helper on top of the same defect)
 				bestRep.Add(id+".normalisation", "findings reported on the program with extracted helpers expanded", "-", OK, "")
 				rep, c = bestRep, bestCtx
